@@ -282,6 +282,11 @@ def predicates(case, q, o):
     return None
 
 
+def nodeliv(o):
+    """handler calls are not C10's subject (and the handler is left out in some calls)"""
+    return {"ok": dict(o["ok"], deliv=None)} if "ok" in o else o
+
+
 def run_impl(cases):
     import os
     import shutil
@@ -307,7 +312,7 @@ def run_impl(cases):
                     if q["k"] == "files" and v["how"] == "rel":
                         v = dict(v, how="abs")      # relative roots with absolute target paths are not an equivalent spelling
                     o2 = B.run_query(base, case, q, idmap, variant=v)
-                    if o2 != o and not fail:
+                    if nodeliv(o2) != nodeliv(o) and not fail:
                         fail = "query %d: spelling: %s gives %s instead of %s" % (qi, v, str(o2)[:300], str(o)[:300])
         finally:
             os.chdir(cwd)
